@@ -306,10 +306,10 @@ namespace GeographicLib {
   Math::real Geoid::height(real lat, real lon) const {
     using std::isnan;           // Needed for Centos 7, ubuntu 14
     lat = Math::LatFix(lat);
+    lon = Math::AngNormalize(lon); // This turns +/-inf into NaN
     if (isnan(lat) || isnan(lon)) {
       return Math::NaN();
     }
-    lon = Math::AngNormalize(lon);
     real
       fx =  lon * _rlonres,
       fy = -lat * _rlatres;
